@@ -43,7 +43,12 @@ class Stream(object):
 
 
 ENTRIES = ["sign_number", "sign_digest_k", "sign_k", "sign_digest_det",
-           "sign_det", "sign_digest_entropy", "sign_entropy"]
+           "sign_det", "sign_digest_entropy", "sign_entropy",
+           # message / digest handed over (to signer AND verifier) as another
+           # bytes-like object
+           "sign_k@bytearray", "sign_digest_k@memoryview-bytearray",
+           "sign_det@memoryview-bytes", "sign_digest_det@bytearray",
+           "sign_entropy@array-B"]
 
 
 def do_sign(sk, entry, msg, k, hname, enc, at, stream):
@@ -125,6 +130,7 @@ def config_case(curve, d, k, msg, entry, encname, at, vkcfg, vkprov, skprov,
     from ecdsa.ecdsa import RSZeroError
     hf = ecd.hash_by_name(hname)
     enc, dec = codec(encname)
+    entry, _, buf = entry.partition("@")
     if curve.verifying_key_length == 2 and "compressed" in vkprov:
         # 1-byte field: the compressed encoding has the same length as the
         # raw one and cannot be told apart (no supported curve is like that)
@@ -145,8 +151,10 @@ def config_case(curve, d, k, msg, entry, encname, at, vkcfg, vkprov, skprov,
             elif env.sig_exists(env.e_of(dg), d) < MIN_VALID_NONCES:
                 return "no-signature-exists"
         try:
-            sig, kind, payload, at_used = do_sign(sk, entry, msg, k, hname,
-                                                  enc, at, stream)
+            from .c10 import as_buffer
+            sig, kind, payload, at_used = do_sign(
+                sk, entry, as_buffer(msg, buf or None), k, hname, enc, at,
+                stream)
         except RSZeroError:
             if entry in ("sign_digest_det", "sign_det"):
                 return ("rszero-from-deterministic", "signature",
